@@ -9,7 +9,7 @@ import vloop
 
 LEVEL = "proof"
 MANIFEST = dict(
-    text='Machine-checked Lean 4 proof, for every call sequence of any length and interleaving, that both counter implementations (translated statement-by-statement from the source on every run) hand out 1+k%191 / 192+k%64 (closed form), stay in range, are successors in their own cycle; that for ANY number of threads, any calls per thread and ANY scheduler interleaving the micro-operations of the threaded counter (acquire / snapshot / store / release, shape regenerated from the source) the numbers handed out are exactly those of one sequential caller (threads_serialise, by an inductive invariant; a snapshot taken outside the lock provably duplicates); and that every call site picks the right counter (decide over the regenerated call-site table). Tie: translator + full differential sweep of every reachable counter state against both real objects; wire clause checked on datagrams built by the real clients.',
+    text='Machine-checked Lean 4 proof, for every call sequence of any length and interleaving, that both counter implementations (translated statement-by-statement from the source on every run) hand out 1+k%191 / 192+k%64 (closed form), stay in range, are successors in their own cycle; that for ANY number of threads, any calls per thread and ANY scheduler interleaving the micro-operations of the threaded counter (acquire / snapshot / store / release, shape regenerated from the source) the numbers handed out are exactly those of one sequential caller (threads_serialise, by an inductive invariant; a snapshot taken outside the lock provably duplicates); and that every call site picks the right counter (decide over the regenerated call-site table). Tie: translator + full differential sweep of every reachable counter state against both real objects; wire clause checked on datagrams built by the real clients. Session 4: the wire clause drives every request-building site of both clients through MORE than one whole cycle of its counter on one connection (all 255 sequence values are seen on the wire): the sequence byte must be in the range of its verb, must be a number the connection counter handed out while that request was built (tap on the public method), and the content length of a verb must not depend on the sequence number.',
     note='Trusted: Lean kernel; axioms propext/Classical.choice/Quot.sound only; harness/translate.py+py2lean.py (cross-checked by the sweep); atomicity of threading.Lock; the abstraction of a lock region to one snapshot read + one write (the lock shape is extracted by the translator and cross-checked by pausing a real thread before every source line of the counter while a second real thread makes a call).',
     technique='Lean 4 induction over call sequences on source-translated definitions + decide over generated call-site table',
     design='5/C16',
